@@ -1,6 +1,6 @@
 """C13 — sessions are reused instead of re-dialled (structural clauses)."""
 from engine.anl.origin import fmt, subterms
-from .common import S, co, calls_norm, is_call_term, var_name, render_path
+from .common import S, co, calls_norm, is_call_term, var_name, render_path, param
 
 EXPLANATION = (
     "Static decision of the reuse plumbing: (R13.1) in Client::create_stream a new session is dialled only on the None edge of "
@@ -13,6 +13,67 @@ EXPLANATION = (
 RULE_TEXT = "one obligation per dial site and per (re)insertion path; non-trivial = needed a dominance or call-graph query"
 
 CL = "client::client::Client::"
+
+
+POOL = "client::session_pool::SessionPool::"
+
+
+def r3_skip_closed(ctx):
+    """a closed entry is skipped, not taken as 'the pool is empty': from the closed edge control goes back to the scan"""
+    g = co(ctx, "R13.3", POOL + "get_idle_session")
+    if g is None:
+        return
+    cfg, conds = ctx.cfg(g), ctx.conds(g)
+    scan = calls_norm(g, "BTreeMap::last_key_value", "BTreeMap::first_key_value", "BTreeMap::pop_last", "BTreeMap::pop_first", "BTreeMap::iter", "BTreeMap::keys", "BTreeMap::values",
+                      "BTreeMap::last_entry", "BTreeMap::first_entry", "BTreeMap::range", "BTreeMap::iter_mut", "BTreeMap::into_iter", "BTreeMap::retain")
+    te = []
+    for c in conds.all():
+        if c.kind == "bool" and is_call_term(c.term, "Session::is_closed"):
+            te += c.edges_for(True)
+    if not scan or not te:
+        ctx.missing("R13.3", "scan of the idle map / is_closed() test in get_idle_session")
+        return
+    ok, p = cfg.must_pass([e[1] for e in te], g.return_blocks(), via_blocks=[c.bb for c in scan])
+    ctx.ob("R13.3", "get_idle_session:closed-entry-is-skipped", ok, scan[0].site, "after discarding a closed entry the pool is scanned again before anything is returned" if ok else
+           "after finding a closed entry get_idle_session can return (None) without looking at the remaining entries: create_stream then dials a new TLS session although a healthy idle session is still pooled underneath",
+           path=None if ok else render_path(g, p))
+
+
+def r4_pool_keys(ctx):
+    """every pooled session has its own key: create_new_session gives each session a fresh sequence number before pooling it,
+    and the pool keys entries by that number"""
+    cn = co(ctx, "R13.4", CL + "create_new_session")
+    if cn is not None:
+        cfg, o = ctx.cfg(cn), ctx.origins(cn)
+        ss = calls_norm(cn, "Session::set_seq")
+        add = calls_norm(cn, "SessionPool::add_idle_session")
+        if not ss:
+            ctx.ob("R13.4", "create_new_session:assigns-unique-seq", False, "", "a new session is pooled without being given a sequence number (Session::set_seq is never called): every session keeps seq 0, so each newly pooled "
+                   "session replaces the one already in the idle map; the replaced session is healthy but can never be reused or reaped")
+        elif add:
+            v = o.of_operand(ss[0].args[1])
+            uniq = is_call_term(v, "::fetch_add") and any(isinstance(s_, tuple) and s_[0] == "static" for s_ in subterms(v))
+            same = any(is_call_term(s_, "Session::new_client") for s_ in subterms(o.of_operand(ss[0].args[0]))) and any(is_call_term(s_, "Session::new_client") for s_ in subterms(o.of_operand(add[0].args[1])))
+            ok = uniq and same and cfg.dominates(ss[0].bb, add[0].bb)
+            ctx.ob("R13.4", "create_new_session:assigns-unique-seq", ok, ss[0].site, "set_seq(fetch_add(static counter)) on the new session dominates add_idle_session" if ok else
+                   "the session is pooled with a sequence number that is not a fresh fetch_add of the process-wide counter (%s): pool keys can collide and one session silently replaces another" % fmt(v)[:80])
+    ad = co(ctx, "R13.4", POOL + "add_idle_session")
+    if ad is not None:
+        o = ctx.origins(ad)
+        ins = calls_norm(ad, "BTreeMap::insert")
+        if ins:
+            k = o.of_operand(ins[0].args[1])
+            ok = is_call_term(k, "Session::seq") and var_name(k[3][0]) == param(ad, 1)
+            ctx.ob("R13.4", "add_idle_session:keyed-by-session-seq", ok, ins[0].site, "the idle map is keyed by session.seq()" if ok else "the idle map key is %s" % fmt(k)[:80])
+    for fn, kind in (("set_seq", "store"), ("seq", "load")):
+        b = ctx.body("R13.4", S + fn)
+        if b is None:
+            continue
+        ob = ctx.origins(b)
+        from .common import atomic_method
+        cs = [c for c in b.calls() if atomic_method(c) == kind and var_name(ob.of_operand(c.args[0])) == "self.seq"]
+        ok = bool(cs) and (kind == "load" or var_name(ob.of_operand(cs[0].args[1])) == param(b, 1))
+        ctx.ob("R13.4", "Session::%s:is-the-seq-field" % fn, ok, cs[0].site if cs else "", "Session::%s %ss self.seq" % (fn, kind) if ok else "Session::%s does not %s self.seq" % (fn, kind))
 
 
 def run(ctx):
@@ -34,6 +95,8 @@ def run(ctx):
             ctx.ob("R13.1", "create_stream:pooled-session-returned", bool(reuse), "", "the Some edge returns the session taken from the pool" if reuse else "the session found in the pool is not what create_stream returns")
         elif not none_e:
             ctx.missing("R13.1", "match on get_idle_session in create_stream")
+    r3_skip_closed(ctx)
+    r4_pool_keys(ctx)
     # R13.2: who re-inserts
     callers = [e for e in ctx.cg.callers("client::session_pool::SessionPool::add_idle_session") if e.kind in ("call", "spawn")]
     owners = sorted({e.src.split("::{closure")[0] for e in callers})
